@@ -1,5 +1,6 @@
 import ShellOp.Proofs.Snapshot
 import ShellOp.Model.FactoryStore
+import ShellOp.Proofs.SnapFilter
 /-!
 # C02 — Synchronization objects and snapshots equal the set of matching objects
 
@@ -949,5 +950,79 @@ theorem config_names_each_once_cfg (mc : MonCfg) :
 example : dedupNames [1, 2, 1] = [1, 2] ∧ uniqExact [1, 2, 1] [1, 2] = true ∧
     uniqExact [1, 2, 1] [1, 2, 1] = false ∧ uniqExact [1, 1, 2] [1, 2] = true ∧
     uniqExact [1, 2] [1] = false ∧ uniqExact [1] [1, 3] = false := by decide
+
+/-! ## 8. fifth wave: "each with the binding's filter applied" for programs with any number of
+outputs, and "identical everywhere it appears" for a snapshot an execution keeps holding -/
+
+section FifthWave
+open ShellOp.Json ShellOp.SnapFilter
+
+/-- **C02.8a `filter_result_documented`** For every list of outputs a jqFilter may have on an object
+(none, one of any type, several of any types), what `ApplyFilterValue` (as written: `len == 1` →
+the output, else `mergeObjects`) returns is the documented filter result: the single output as it is,
+otherwise an object whose every key carries the value of the last member with that key among the
+object-valued outputs, and no key besides. -/
+theorem filter_result_documented (outs : List J) :
+    frDocumented outs (applyFilterValue outs) = true := by
+  unfold applyFilterValue
+  by_cases h : outs.length = 1
+  · match outs, h with
+    | [v], _ => simp [frDocumented]
+  · simp only [beq_iff_eq, h, if_false]
+    exact frDocumented_merge outs h
+
+/-- … in particular for every program of the fragment (terms joined by `,`, `empty`, `.path[]`) on
+every object on which it does not fail. -/
+theorem filter_result_documented_prog (p : List Term) (j : J) (outs : List J)
+    (_h : runProg p j = some outs) : frDocumented outs (applyFilterValue outs) = true :=
+  filter_result_documented outs
+
+/-- non-vacuity: `{"a": .data.a}, .data.a, {"a": .data.b, "b": .data.b}, empty, .data[]` has five
+outputs on this object; the result is the merge of the two objects (the later `a` wins). -/
+example :
+    let j : J := .obj [("data", .obj [("a", .str "3"), ("b", .str "4")])]
+    let p : List Term := [.one (.mkObj [("a", .path ["data", "a"])]), .one (.path ["data", "a"]),
+      .one (.mkObj [("a", .path ["data", "b"]), ("b", .path ["data", "b"])]), .empty, .iter ["data"]]
+    runProg p j = some [.obj [("a", .str "3")], .str "3", .obj [("a", .str "4"), ("b", .str "4")], .str "3", .str "4"]
+    ∧ (runProg p j).map applyFilterValue = some (.obj [("a", .str "4"), ("b", .str "4")])
+    ∧ frDocumented [.obj [("a", .str "3")], .obj [("b", .str "4")]] (.obj [("a", .str "3")]) = false := by
+  decide
+
+/-- Witness (the variant `len(outputs) >= 1` is not the code): it returns the first of two object
+outputs, which is not the documented result. -/
+theorem first_output_witness :
+    frDocumented [.obj [("a", .str "3")], .obj [("b", .str "4")]]
+      (applyFilterValueFirst [.obj [("a", .str "3")], .obj [("b", .str "4")]]) = false
+    ∧ frDocumented [.obj [("a", .str "3")], .obj [("b", .str "4")]]
+      (applyFilterValue [.obj [("a", .str "3")], .obj [("b", .str "4")]]) = true := by
+  decide
+
+/-- **C02.8b `held_snapshot_stable`** The list one `Snapshot()` call returned reads the same —
+the sorted union of the caches at the time of the call — after every later history of watch events
+and further `Snapshot()` calls of any reader (for every sorting routine, every number of informers,
+every cache content): `getCachedObjects` and `Snapshot` allocate per call, nothing writes to an
+array that was handed out. This is "the snapshot of a binding is identical everywhere it appears
+inside one execution" along the time the execution holds it. -/
+theorem held_snapshot_stable {α : Type} (srt : List α → List α) (s : RState α) (ops : List (ROp α)) :
+    (rrun srt (snapshotCall srt s).1 ops).heap.read (snapshotCall srt s).2 = srt s.caches.flatten := by
+  rw [read_extends (extends_rrun srt _ ops) _ (snapshotCall_buf_lt srt s)]
+  exact snapshotCall_read srt s
+
+example : let s : RState Nat := { caches := [[1, 2, 3, 4]] }
+    let r := snapshotCall id s
+    (rrun id r.1 [.watch 0 [3, 4], .snapshot]).heap.read r.2 = [1, 2, 3, 4]
+    ∧ (rrun id r.1 [.watch 0 [3, 4], .snapshot]).heap.bufs.length = 4 := by decide
+
+/-- Witness (reused per-informer buffer returned by reference — not the code): after two of four
+objects are deleted and another reader takes a snapshot, the list the first reader holds shows the
+remaining objects twice. -/
+theorem reused_buffer_witness :
+    let s : RState Nat := { caches := [[1, 2, 3, 4]], heap := { bufs := [[]] } }
+    let r := snapshotCallReuse id s
+    r.1.heap.read r.2 = [1, 2, 3, 4]
+    ∧ (snapshotCallReuse id { r.1 with caches := [[3, 4]] }).1.heap.read r.2 = [3, 4, 3, 4] := by
+  decide
+
+end FifthWave
 
 end ShellOp.Snapshot.C02
